@@ -247,6 +247,35 @@ def check_case(case, rnd):
     return out, sorted(set(errs))
 
 
+# registers that a callee may overwrite according to the platform ABI documents (System V x86-64 psABI, Microsoft x64, cdecl,
+# AAPCS64 without the IP/platform registers, MIPS o32): lower bounds for ABI.caller_saved_registers(), written down independently
+CALL_CLOBBERED = {
+    ("ELF", "X64"): {"rax", "rcx", "rdx", "rsi", "rdi", "r8", "r9", "r10", "r11"},
+    ("PE", "X64"): {"rax", "rcx", "rdx", "r8", "r9", "r10", "r11"},
+    ("PE", "IA32"): {"eax", "ecx", "edx"},
+    ("ELF", "ARM64"): {f"x{i}" for i in range(16)},
+    ("ELF", "MIPS32"): {"v0", "v1", "a0", "a1", "a2", "a3"} | {f"t{i}" for i in range(10)},
+}
+
+
+def abi_facts():
+    import gtirb
+    from gtirb_rewriting.abi import ABI
+    bad = []
+    for (ff, isa), want in CALL_CLOBBERED.items():
+        m = gtirb.Module(name="m", isa=getattr(gtirb.Module.ISA, isa), file_format=getattr(gtirb.Module.FileFormat, ff))
+        got = {r.name for r in ABI.get(m).caller_saved_registers()}
+        if not want <= got:
+            bad.append(dict(what=f"{ff}/{isa}: caller_saved_registers() lacks {sorted(want - got)}, which the platform ABI lets a callee overwrite: "
+                                 "preserve_caller_saved_registers does not preserve them", input=f"{ff}/{isa}", observed=str(sorted(got)), finding=None))
+    return bad
+
+
+def re_digits(w):
+    import re
+    return re.sub(r"[0-9a-f]{6,}", "..", w)[:200]
+
+
 def leaf_decisions(rnd, n):
     """RewritingContext decides for every patch whether the enclosing function may be a leaf (no call edge in it before the
     rewrite; unknown function: may be).  The flag it hands to the prologue builder is compared with that reading."""
@@ -407,6 +436,15 @@ class C16(Prop):
         dn, lv = leaf_decisions(C.rng("c16-leaf" + ("-boost" if boosted else "")), 60 if not boosted else 300)
         n += dn
         viol = list(viol) + lv
+        viol = list(viol) + abi_facts()
+        # context level: one Patch object with constraints inserted at several places, with and without a DEBUG logger
+        from harness import ctxlevel
+        rndc = C.rng("c16-ctx" + ("-boost" if boosted else ""))
+        for _ in range(400 if boosted else 80):
+            n += 1
+            w = ctxlevel.shared_patch_insertions(rndc)
+            if w:
+                viol.append(dict(what=re_digits(w), input="ctxlevel.shared_patch_insertions()", observed=w, finding=None))
         seen, uniq = set(), []
         for v in viol:
             if v["what"] not in seen:
